@@ -80,6 +80,7 @@ class Analyzer:
         self.max_depth = max_depth
         self.max_paths = max_paths
         self._abort = []
+        self._renamed = {}
         self.unresolved = []
         self._memo = {}
 
@@ -114,6 +115,14 @@ class Analyzer:
     def _target(self, call, owner_fi):
         """FuncInfo that a call on self resolves to (None = no effect on self / external)"""
         f = call.func
+        if isinstance(f, ast.Name) and f.id in owner_fi.module.functions and any(isinstance(a, ast.Name) and a.id == 'self' for a in call.args):
+            # a module-level helper that receives the container: analysed as if it were a method (its parameter renamed to self)
+            t = owner_fi.module.functions[f.id]
+            idx = [i for i, a in enumerate(call.args) if isinstance(a, ast.Name) and a.id == 'self'][0]
+            ps = t.params()
+            if idx < len(ps):
+                return self._as_method(t, ps[idx]), ('drop', idx)
+            return None
         if not isinstance(f, ast.Attribute):
             return None
         recv = f.value
@@ -129,6 +138,28 @@ class Analyzer:
             t = self.repo.resolve(r, f.attr, ayns=via)
             return t, 1
         return None
+
+    def _as_method(self, t, pname):
+        key = (id(t.node), pname)
+        if key not in self._renamed:
+            from .tracer import clone
+            from .srcmodel import FuncInfo
+            node = clone(t.node)
+
+            class R(ast.NodeTransformer):
+                def visit_Name(self, n):
+                    if n.id == pname:
+                        return ast.copy_location(ast.Name(id='self', ctx=n.ctx), n)
+                    return n
+
+                def visit_arg(self, a):
+                    if a.arg == pname:
+                        a.arg = 'self'
+                    return a
+            node = R().visit(node)
+            ast.fix_missing_locations(node)
+            self._renamed[key] = FuncInfo(node, t.module, None, False, outer=None)
+        return self._renamed[key]
 
     # -- path enumeration ---------------------------------------------------------------------
     def paths(self, fi, depth=0):
@@ -206,8 +237,12 @@ class Analyzer:
             t, skip = tgt
             if t.is_property:
                 continue
-            params = t.params()[1:] if not t.is_static else t.params()
-            args = c.args[skip:]
+            if isinstance(skip, tuple):
+                params = [pn for i_, pn in enumerate(t.params()) if i_ != skip[1]]
+                args = [a_ for i_, a_ in enumerate(c.args) if i_ != skip[1]]
+            else:
+                params = t.params()[1:] if not t.is_static else t.params()
+                args = c.args[skip:]
             amap = {pn: norm(a) for pn, a in zip(params, args)}
             for kwd in c.keywords:
                 if kwd.arg:
@@ -219,7 +254,13 @@ class Analyzer:
                 nm = names[len(names) - len(a.defaults) + i]
                 if nm not in amap and nm != 'self':
                     amap[nm] = norm(d)
-            subs = self.paths(t, depth + 1)
+            # exceptional exits of a try block around this call are taken from the caller's state before the call; the
+            # callee's own statements must not register their (callee-local) states as such exits
+            saved_abort, self._abort = self._abort, []
+            try:
+                subs = self.paths(t, depth + 1)
+            finally:
+                self._abort = saved_abort
             new = []
             for q in ps:
                 for sp in subs:
